@@ -139,6 +139,35 @@ def r2(ctx):
 @rule("C10.R3", "-x patterns and the analysis file's [codebase].exclude are concatenated into the one exclude list")
 def r3(ctx):
     repo = ctx.repo
+    # the front ends do `excludes += analysis["codebase"]["exclude"]`: the schema must admit exactly lists of strings
+    # there (a bare string would be spliced in character by character: exclude = "*.h" becomes the patterns * . h)
+    try:
+        import jsonschema
+
+        sch = repo.json("schema/analysis.schema")
+        sub = sch.get("properties", {}).get("codebase")
+        if sub is None:
+            raise AnalysisError("analysis.schema: properties.codebase not found")
+        full = dict(sub)
+        for k_ in ("$defs", "definitions"):
+            if k_ in sch:
+                full[k_] = sch[k_]
+        for inst, want, what in (
+            ({"exclude": ["*.h", "!keep.h"]}, True, "a list of patterns"),
+            ({"exclude": []}, True, "an empty list"),
+            ({"exclude": "*.h"}, False, "a bare string"),
+            ({"exclude": [1]}, False, "a list holding a number"),
+            ({"exclude": [["a"]]}, False, "a nested list"),
+            ({"exclude": {"a": "b"}}, False, "a table"),
+        ):
+            try:
+                jsonschema.validate(instance=inst, schema=full)
+                got = True
+            except jsonschema.exceptions.ValidationError:
+                got = False
+            ctx.check(got is want, f"schema/analysis.schema:codebase.exclude:{what}", f"[codebase] exclude given as {what} is {'accepted' if got else 'rejected'} by the schema; the front ends concatenate it to the -x list with `+=`, which is right for lists of strings only", "codebasin/schema/analysis.schema")
+    except ImportError as e:  # pragma: no cover
+        raise AnalysisError(f"jsonschema unavailable: {e}")
     for short, q in (("__main__", "_main"), ("tree", "_tree")):
         f = repo.func(short, q)
         ctor = [c for c in f.calls() if (dotted(c.func) or "").split(".")[-1] == "CodeBase"]
